@@ -160,39 +160,41 @@ theorem C04_one_tuple_subscript (d k : String) :
 /-! ### which parts of a query are evaluated in the caller's scope (PreTranslator, `Model/PreTrans.lean`) -/
 
 open PonyVerif.Model.PreTrans in
-/-- For every tree without `Starred` nodes (names and constants being leaves) and every set of names bound by the query:
+/-- `sf` says whether `PreTranslator.postStarred` marks `*expr` external whatever `expr` is (`Gen.C04Src.starredForced`, read from
+    the source on every run; the driver runs the model with that value).  For every tree (names and constants being leaves; no
+    `Starred` node when `sf` is true — `WF sf`) and every set of names bound by the query:
     a node that PreTranslator marks external — and only such nodes are compiled and evaluated in the caller's scope — reads no
     name bound by the query and holds no lambda. -/
-theorem C04_external_sound (ctx : List String) (n : Node) (hw : WF n = true) (he : (classify ctx n).ext = true) :
+theorem C04_external_sound (sf : Bool) (ctx : List String) (n : Node) (hw : WF sf n = true) (he : (classify sf ctx n).ext = true) :
     usesBound ctx n = false :=
-  ext_sound ctx n hw he
+  ext_sound sf ctx n hw he
 
 open PonyVerif.Model.PreTrans in
 /-- The first sentence of the property, over the model of PreTranslator: for EVERY tree whose node labels are distinct and EVERY
     set of names bound by the query, every occurrence of a name the query does not bind (`freeLeaves`: lambda parameters and
     query variables excluded) lies inside a member of `PreTranslator(...).externals` — the set that is compiled, evaluated in the
     caller's scope and passed as parameters — after the replacement of direct children and after the demotion pass. -/
-theorem C04_external_coverage (ctx : List String) (n : Node) (hnd : (labsOf n).Nodup) (l : Nat)
-    (hl : l ∈ freeLeaves ctx n) : l ∈ coverSet (externals ctx n) n :=
-  coverage ctx n hnd l hl
+theorem C04_external_coverage (sf : Bool) (ctx : List String) (n : Node) (hnd : (labsOf n).Nodup) (l : Nat)
+    (hl : l ∈ freeLeaves ctx n) : l ∈ coverSet (externals sf ctx n) n :=
+  coverage sf ctx n hnd l hl
 
 open PonyVerif.Model.PreTrans in
 /-- non-vacuous: `(a, p.x + b)` with `p` bound — the tuple is not external, `a` and `b` are free and both are members -/
 example :
     let t : Node := .mk .tuple 0 [] (.cons (.mk .nameLoad 1 ["a"] .nil) (.cons (.mk .other 2 []
       (.cons (.mk .other 3 [] (.cons (.mk .nameLoad 4 ["p"] .nil) .nil)) (.cons (.mk .nameLoad 5 ["b"] .nil) .nil))) .nil))
-    (labsOf t).Nodup ∧ freeLeaves ["p"] t = [1, 5] ∧ externals ["p"] t = [1, 5] := by decide
+    (labsOf t).Nodup ∧ freeLeaves ["p"] t = [1, 5] ∧ externals false ["p"] t = [1, 5] ∧ externals true ["p"] t = [1, 5] := by decide
 
 open PonyVerif.Model.PreTrans in
 /-- `a + f(b)` with `p` bound: the whole expression is external, and it is the one member of the externals -/
-example : externals ["p"] (.mk .other 0 [] (.cons (.mk .nameLoad 1 ["a"] .nil) (.cons (.mk .other 2 []
+example : externals false ["p"] (.mk .other 0 [] (.cons (.mk .nameLoad 1 ["a"] .nil) (.cons (.mk .other 2 []
     (.cons (.mk .nameLoad 3 ["f"] .nil) (.cons (.mk .nameLoad 4 ["b"] .nil) .nil))) .nil))) = [0] := by decide
 
 open PonyVerif.Model.PreTrans in
 /-- without the guard the statement is false: `postStarred` sets `external = True` whatever the operand is, so `*p` with the
     query variable `p` is external (on the real code the evaluation then raises NameError — loud; replayed every run) -/
 theorem C04_external_sound_full_false :
-    ¬ (∀ (ctx : List String) (n : Node), (classify ctx n).ext = true → usesBound ctx n = false) := by
+    ¬ (∀ (ctx : List String) (n : Node), (classify true ctx n).ext = true → usesBound ctx n = false) := by
   intro h
   have := h ["p"] (.mk .starred 0 [] (.cons (.mk .nameLoad 1 ["p"] .nil) .nil)) (by decide)
   revert this; decide
